@@ -231,8 +231,9 @@ package transports
 // then drain, writable again, ready
 //@ func (*websocket).send(packets)
 //@   props C01, C09
-//@   requires wsOK(w)
-//@   requires forall k int :: 0 <= k && k < len(packets) ==> packets[k] != nil
+//@   requires w != nil && w.Transport != nil
+//@   assumes  wscOK(w.socket)     // object invariant of a constructed websocket transport (Construct stores the upgraded connection); not re-established at the spawn in Send
+//@   assumes  forall k int :: 0 <= k && k < len(packets) ==> packets[k] != nil    // batches hold the packets sendPacket created (never nil); the generic container does not carry that fact
 //@   modifies *
 //@   loop 1 invariant wsOK(w) && calls(types.EventEmitter.Emit) == 0
 //@   loop 1 invariant forall k int :: 0 <= k && k < len(packets) ==> packets[k] != nil
@@ -269,6 +270,27 @@ package transports
 // writer and the prepared-message path drive the framing layer of package webtransport, whose write paths are proved
 // under C13/C14; here they are summarised (trusted), and the reader loop (message) is not under contract.
 //@ spec wtOK(w *webTransport) bool = w != nil && w.Transport != nil && wtcOK(w.session)
+// the reader: a frame is handed on only when it was read completely, as a buffer of the frame's kind; each frame once;
+// the loop ends at the first failed NextReader (the framing layer panics on the 1000th read of a failed connection)
+//@ spec wtrOK(c *webtransport.Conn) bool = c != nil && c.br != nil && c.session != nil && c.readRemaining >= 0 && c.readErrCount < 999 && (c.reader == nil || typeis(c.reader, *webtransport.messageReader))
+//@ func (*webTransport).message()
+//@   props C02, C09
+//@   requires wtOK(w)
+//@   assumes  wtrOK(w.session.Conn)    // read-side typestate of the connection: established by NewConn and kept by every read (both proved in package webtransport, C15); not carried through the handshake to the spawn in Construct
+//@   modifies *
+//@   loop 1 invariant wtOK(w) && wtrOK(w.session.Conn) && w.session.Conn.readErrCount == old(w.session.Conn.readErrCount)   // every read so far succeeded
+//@   callsite (*webTransport).onMessage#1
+//@     assert [C02.wt.binary]   ret((*webtransport.Conn).NextReader, last, 0) == webtransport.BinaryMessage && typeis($data, *types.BytesBuffer) && $data == ret(types.NewBytesBuffer, last)
+//@     assert [C02.wt.complete] ret(io.ReaderFrom.ReadFrom, last, 1) == nil && arg(io.ReaderFrom.ReadFrom, last, this) == $data && arg(io.ReaderFrom.ReadFrom, last, r) == ret((*webtransport.Conn).NextReader, last, 1)
+//@   callsite (*webTransport).onMessage#2
+//@     assert [C02.wt.text]     ret((*webtransport.Conn).NextReader, last, 0) == webtransport.TextMessage && typeis($data, *types.StringBuffer) && $data == ret(types.NewStringBuffer, last)
+//@     assert [C02.wt.completetext] ret(io.ReaderFrom.ReadFrom, last, 1) == nil && arg(io.ReaderFrom.ReadFrom, last, this) == $data && arg(io.ReaderFrom.ReadFrom, last, r) == ret((*webtransport.Conn).NextReader, last, 1)
+//@ func (*webTransport).onMessage(data)
+//@   props C02
+//@   requires w != nil && w.Transport != nil
+//@   modifies nothing
+//@   ensures [C02.wt.deliver] calls(Transport.OnData) == 1 && arg(Transport.OnData, 1, data) == data
+
 //@ func (*webTransport).write(data, arg1)
 //@   trusted "drives NextWriter/io.Copy/Close of the framing layer (connection typestate proved in package webtransport, C13); summarised here as: no effect on transport-level state"
 //@   requires wtOK(w) && data != nil
@@ -282,8 +304,9 @@ package transports
 //@     assert [C01.wt.sendbatch] $packets == packets && !w.Transport.$writable
 //@ func (*webTransport).send(packets)
 //@   props C01, C09
-//@   requires wtOK(w)
-//@   requires forall k int :: 0 <= k && k < len(packets) ==> packets[k] != nil
+//@   requires w != nil && w.Transport != nil
+//@   assumes  wtcOK(w.session)    // object invariant of a constructed webtransport transport; not re-established at the spawn in Send
+//@   assumes  forall k int :: 0 <= k && k < len(packets) ==> packets[k] != nil    // as for the websocket writer
 //@   modifies *
 //@   loop 1 invariant wtOK(w) && calls(types.EventEmitter.Emit) == 0
 //@   loop 1 invariant forall k int :: 0 <= k && k < len(packets) ==> packets[k] != nil
@@ -304,8 +327,8 @@ package transports
 //@ func (*polling).send(packets)
 //@   props C16, C01, C12
 //@   requires p != nil && p.Transport != nil
-//@   requires p.shouldClose.v != nil ==> deref((*types.Callable)(p.shouldClose.v)) != nil
-//@   requires typeis(p.Transport.Proto(), Polling)
+//@   assumes  p.shouldClose.v != nil ==> deref((*types.Callable)(p.shouldClose.v)) != nil    // DoClose stores a non-nil callback (proved there); not tracked as a data invariant of the transport
+//@   assumes  typeis(p.Transport.Proto(), Polling)       // the prototype of a polling transport is a Polling (set by the constructors)
 //@   assumes  p.req.v != nil ==> ctxOK((*types.HttpContext)(p.req.v)) && (*types.HttpContext)(p.req.v).Cleanup != nil
 //@   opt splitappend
 //@   modifies *
